@@ -170,6 +170,15 @@ fn opts(w: &mut ZWorld, args: &[String]) {
     w.calls.push(format!("opts({})", args.join(",")));
 }
 
+/// A `Result` behind a differently named alias.
+type Outcome = Result<(), String>;
+
+#[then(regex = "^alias fails$")]
+fn alias_fails(w: &mut ZWorld) -> Outcome {
+    w.calls.push("alias_fails()".into());
+    Err("aliased boom".into())
+}
+
 #[given(regex = "^okres$")]
 fn okres(w: &mut ZWorld) -> Result<(), String> {
     w.calls.push("okres()".into());
